@@ -194,7 +194,7 @@ def shuffle_modes(ctx, n=None):
         # the nearest declaration wins in every process)
         w = worlds.gen_world(rng, n_layers=rng.choice([2, 3, 4]), tests_per_layer=(2, 5),
                              kinds=["pass", "pass", "pass", "fail", "error", "skipBody"], p_fault=0.0, p_write=0.0,
-                             nested=(i % 2 == 0))
+                             nested=(i % 2 == 0 or i % 4 == 1))
         if i % 3 == 1:
             # at least two unit tests, and a layer whose dotted name sorts after the unit layer's (the shuffle draws
             # one stream over the layers in name order)
@@ -266,7 +266,7 @@ def shuffle_modes(ctx, n=None):
             loud = [t for t in w["tests"] if not t.get("doctest")]
             if loud:
                 rng.choice(loud)["body"]["fd2"] = ("library warning: something is deprecated " + "x" * 60 + "\n") * 3000
-        seed = rng.randint(0, 10 ** 6) if i % 3 != 2 else None      # (every third world runs unshuffled)
+        seed = rng.randint(0, 10 ** 6) if i % 2 == 1 else None      # (every other world runs unshuffled)
         wo = {}
         if i % 4 == 2:
             # started through a wrapper script (options from sys.argv); tests that empty sys.argv in place run in the
